@@ -188,12 +188,18 @@ package atree
 //@   modifies a.header, a.inlined, ghost.sto, ghost.stored, ghost.touched, alloc
 
 //@ # bulk pop empties the array; when the array lives inline in a parent, the parent has to be told (C10)
-//@ func (a *Array) PopIterate(fn) (err)  serves C01 C10
+//@ func (a *Array) PopIterate(fn) (err)  serves C01 C06 C10
 //@   requires fn != nil
 //@   assume rootReady(a) because "tree invariant at the root (composition)"
 //@   ensures[C01] err == nil ==> is(a.root, *ArrayDataSlab) && len(as(a.root, *ArrayDataSlab).elements) == 0 && as(a.root, *ArrayDataSlab).header.count == 0 &&
 //@        as(a.root, *ArrayDataSlab).header.slabID == old(hdrOf(a.root).slabID) && wfADS(as(a.root, *ArrayDataSlab))
 //@   ensures[C10] err == nil && old(is(a.root, *ArrayDataSlab) && as(a.root, *ArrayDataSlab).inlined) ==> notified > old(notified)
+//@   # the emptied root, as handed to the parent notification: same id, same inline status, no elements, and the size an empty leaf of
+//@   # that kind reports (standalone root prefix or inlined prefix)
+//@   before Array.notifyParentIfNeeded: is(a.root, *ArrayDataSlab) && len(as(a.root, *ArrayDataSlab).elements) == 0 && as(a.root, *ArrayDataSlab).header.count == 0
+//@   before Array.notifyParentIfNeeded: old(is(a.root, *ArrayDataSlab)) ==> as(a.root, *ArrayDataSlab).header.slabID == old(hdrOf(a.root).slabID)
+//@   before Array.notifyParentIfNeeded: as(a.root, *ArrayDataSlab).header.size == ite(as(a.root, *ArrayDataSlab).inlined, 17, 5)
+//@   before Array.notifyParentIfNeeded: old(is(a.root, *ArrayDataSlab)) ==> as(a.root, *ArrayDataSlab).inlined == old(as(a.root, *ArrayDataSlab).inlined) && as(a.root, *ArrayDataSlab).extraData == old(as(a.root, *ArrayDataSlab).extraData)
 //@   modifies heap, ghost.sto, ghost.stored, ghost.touched, ghost.notified, alloc
 
 //@ # ---- stale handles (C11): the updater closure installed on a child re-validates before touching the parent.
